@@ -9,7 +9,12 @@ from typing import final
 
 from ..data import tools
 from ..data.tools import Info
-from ..errors import FinamLogError, FinamMetaDataError, FinamTimeError
+from ..errors import (
+    FinamLogError,
+    FinamMetaDataError,
+    FinamNoDataError,
+    FinamTimeError,
+)
 from ..interfaces import IAdapter, IOutput, ITimeDelayAdapter
 from ..tools.log_helper import ErrorLogger, is_loggable
 from .input import Input
@@ -398,6 +403,9 @@ class TimeDelayAdapter(Adapter, ITimeDelayAdapter, ABC):
         if time is not None and not isinstance(time, datetime):
             with ErrorLogger(self.logger):
                 raise FinamTimeError("Time must be of type datetime")
+
+        if self.initial_time is None:
+            raise FinamNoDataError(f"Data info was not yet exchanged in {self.name}")
 
         new_time = self.with_delay(time)
         data = self._get_data(new_time, target)
